@@ -244,6 +244,44 @@ def auto_and_then_edits(sf, lo, hi, ed, log, where, protected):
         i += 1
 
 
+def auto_enumerate_edits(sf, lo, hi, ed, log, where, protected):
+    """R13 (only when requested by the spec): `for (I, X) in EXPR.enumerate() { BODY }` (I, X plain identifiers, BODY without `continue`)
+    becomes `let mut I: usize = 0; for X in EXPR { BODY ; I = I + 1; }` - the definition of Iterator::enumerate (a counter starting at 0,
+    incremented once per item).  `.enumerate()` is a provided trait method that cannot be given a Verus specification from outside vstd.
+    The added `I + 1` carries an overflow obligation of its own (discharged from the loop invariant `I == iterator index`)."""
+    toks = sf.toks
+    i = lo
+    n = 0
+    while i < hi - 8:
+        if toks[i].text == 'for' and toks[i + 1].text == '(' and toks[i + 2].kind == 'ident' and toks[i + 3].text == ',' \
+                and toks[i + 4].kind == 'ident' and toks[i + 5].text == ')' and toks[i + 6].text == 'in':
+            j = i + 7
+            while j < hi and toks[j].text != '{':
+                if toks[j].text in ('(', '['):
+                    j = match_close(toks, j)
+                j += 1
+            if j >= hi or not (toks[j - 1].text == ')' and toks[j - 2].text == '(' and toks[j - 3].text == 'enumerate' and toks[j - 4].text == '.'):
+                i += 1
+                continue
+            be = match_close(toks, j)
+            if any(toks[k].text == 'continue' for k in range(j, be)):
+                raise Undecided('%s: R13 cannot desugar an enumerate loop whose body contains `continue`' % where)
+            ivar, xvar = toks[i + 2].text, toks[i + 4].text
+            if ivar == '_' or xvar == '_':
+                raise Undecided('%s: R13 needs named enumerate bindings' % where)
+            ed.add(toks[i].start, toks[i].start, 'let mut %s: usize = 0; ' % ivar)
+            ed.add(toks[i + 1].start, toks[i + 5].end, xvar)
+            ed.add(toks[j - 4].start, toks[j - 1].end, '')
+            ed.add(toks[be].start, toks[be].start, '; %s = %s + 1; ' % (ivar, ivar))
+            protected.append((i + 1, i + 6))
+            log.rw('R13', where, 'for (%s, %s) in ...enumerate() { .. }' % (ivar, xvar),
+                   'let mut %s: usize = 0; for %s in ... { .. ; %s = %s + 1; }  (definition of Iterator::enumerate)' % (ivar, xvar, ivar, ivar))
+            n += 1
+        i += 1
+    if n == 0:
+        log.rw('R13-skipped', where, '.enumerate()', '(no enumerate loop in current source)')
+
+
 def loop_sites(sf, lo, hi):
     """Token indices of the body `{` of each loop (while / for / loop) in [lo,hi), in source order."""
     toks = sf.toks
@@ -298,7 +336,7 @@ class FnSpec:
     def __init__(self, name, requires=None, ensures=None, decreases=None, ret='r', loops=None, hints=None,
                  rewrites=None, mode='verify', props=(), canary=None, attrs=None, closures=None,
                  head_proof=None, note=None, rename=None, no_unwind=False, params=None, head_ghost=None, nested=None,
-                 inline_and_then=False):
+                 inline_and_then=False, desugar_enumerate=False):
         self.name = name
         self.requires, self.ensures, self.decreases = requires, ensures, decreases
         self.ret = ret
@@ -317,6 +355,7 @@ class FnSpec:
         self.params = params              # {param name: new pattern}  (rarely needed)
         self.head_ghost = head_ghost      # ghost `let` statements inserted at the start of the body (spec-only)
         self.inline_and_then = inline_and_then
+        self.desugar_enumerate = desugar_enumerate
         self.nested = nested or {}        # contracts of fn items nested in the body: name -> {'ret', 'requires', 'ensures'}
 
 
@@ -508,6 +547,8 @@ def weave_fn(sf, it, spec, log, where, canary=False):
                 ed.add(toks[j - 1].end, toks[j - 1].end, ' }')
                 if not canary:
                     log.rw('R9', where, 'closure body `%s`' % sf.text[nxt.start:toks[j - 1].end][:80], 'wrapped in a block to carry its contract')
+    if spec.desugar_enumerate and spec.mode == 'verify':
+        auto_enumerate_edits(sf, it.body_lo, it.body_hi, ed, log if not canary else Log(), where, protected)
     if spec.inline_and_then:
         auto_and_then_edits(sf, it.body_lo, it.body_hi, ed, log if not canary else Log(), where, protected)
     closure_underscore_edits(sf, it.body_lo, it.body_hi, ed, log, where, protected)
